@@ -29,7 +29,7 @@ func (c02) ID() string { return "C02" }
 func (c02) Plan(tier string) fw.Plan {
 	p := fw.Plan{
 		Batches: 16, Cases: 1500, TimeoutSec: 900, Level: "exploration",
-		Rule: "values drawn boundary-biased from the C02 domain (finite floats, CIDs of all versions/codecs/multihash shapes, ints over int64 ∪ uint64, arbitrary byte strings as strings and keys), each built in several insertion orders (all permutations for maps of ≤4 keys in the dedicated permutation cases) through basicnode build programs and the harness-owned node implementation; plus a deterministic sweep of every integer and every string/bytes/list/map length at each CBOR head boundary ±1. Non-trivial: the value contains a map with ≥2 keys or an integer/length needing a multi-byte head; distinct by canonical hash of the value.",
+		Rule:        "values drawn boundary-biased from the C02 domain (finite floats, CIDs of all versions/codecs/multihash shapes, ints over int64 ∪ uint64, arbitrary byte strings as strings and keys), each built in several insertion orders (all permutations for maps of ≤4 keys in the dedicated permutation cases) through basicnode build programs and the harness-owned node implementation; plus a deterministic sweep of every integer and every string/bytes/list/map length at each CBOR head boundary ±1. Non-trivial: the value contains a map with ≥2 keys or an integer/length needing a multi-byte head; distinct by canonical hash of the value.",
 		Assumptions: []string{"reference encoder lib/ref/cbor is the canonical DAG-CBOR form (written from the spec, ~100 lines)", "go-cid is trusted for turning CID bytes into a Link value"},
 		MinEvents:   []string{"encodes", "decodes", "encoded_length_calls", "permutation_cases", "boundary_cases"},
 	}
